@@ -717,15 +717,19 @@ func (c *cluster) ntGate(n int) *gate {
 	if c.el == nil {
 		return nil
 	}
-	// (an attempt that re-uses the term of the previous one: the withdrawn requests of the old attempt are not its requests)
-	if g := c.findGate(func(g *gate) bool {
-		return g.kind == "newterm" && g.to == n && g.term == c.el.term && g.fromInc == c.coordInc && g.ctx.Err() == nil
-	}); g != nil {
-		return g
+	// (an attempt that re-uses the term of the previous one: a request of the old attempt that is still pending is not
+	// a request of this attempt: the newest one is)
+	var best *gate
+	n0 := n
+	for {
+		g := c.findGate(func(g *gate) bool {
+			return g.kind == "newterm" && g.to == n0 && g.term == c.el.term && g.fromInc == c.coordInc && (best == nil || g.seq > best.seq)
+		})
+		if g == nil {
+			return best
+		}
+		best = g
 	}
-	return c.findGate(func(g *gate) bool {
-		return g.kind == "newterm" && g.to == n && g.term == c.el.term && g.fromInc == c.coordInc
-	})
 }
 
 // deliverNewTerm runs the NewTerm request on the node and reports it. Returns the response for the caller.
@@ -1146,7 +1150,20 @@ func (c *cluster) failCatchupGates() {
 			if g.kind != "newterm" || g.fromInc != c.coordInc {
 				return false
 			}
-			return g.term <= c.lastMeta.Term
+			if g.term > c.lastMeta.Term {
+				return false
+			}
+			if g.term < c.lastMeta.Term || c.lastMeta.Status == model.ShardStatusSteadyState {
+				return true
+			}
+			// the shard is in an election of this very term: the request belongs to a catch-up loop only if one is known
+			// (an election attempt that re-uses the term of the previous attempt sends such requests too)
+			for _, cu := range c.catchups {
+				if cu.alive && cu.f == g.to {
+					return true
+				}
+			}
+			return false
 		})
 		if g == nil {
 			return
